@@ -1059,7 +1059,14 @@ def gen_named(rng, tier):
             x, y = rng.randrange(0, 30), rng.randrange(0, 30)
             zz, t = (x, y) if rng.random() < .3 else (x + rng.randrange(0, 4), y + rng.randrange(0, 4))
             ranges.append(dict(name="nr_%d" % i, table=rng.choice(["old", "old", "other"]), area=[x, y, zz, t]))
-        specs.append(dict(k="nrename", old=old, other=other, new=new, ranges=ranges))
+        new2 = None
+        if rng.random() < .35:
+            new2 = okname()
+            if new2 in (other, new.strip()):
+                new2 = new2 + "y"
+        if new.strip() == other:
+            new = new + "z"
+        specs.append(dict(k="nrename", old=old, other=other, new=new, new2=new2, ranges=ranges))
     return specs
 
 
@@ -1098,15 +1105,22 @@ def run_named(spec, odfdo):
     def snapshot():
         root = etree.fromstring('<r %s>%s</r>' % (NSDECL, body.serialize()))
         return [(e.get(TB + "name"), e.get(TB + "base-cell-address"), e.get(TB + "cell-range-address")) for e in root.iter(TB + "named-range")]
+    old_name, new_name = spec["old"], spec["new"]
+    if spec.get("new2") is not None:
+        # two renamings in a row: the ranges must follow the table both times; the second step is the one checked
+        def first():
+            told.name = spec["new"]
+        if guarded(first)[0] == "ok":
+            old_name, new_name = spec["new"].strip(), spec["new2"]
     before = snapshot()
     def setname():
-        told.name = spec["new"]
+        told.name = new_name
     r = guarded(setname)
     after = snapshot()
     bt = ";".join("((%s, %s, %s), %s, %s)" % (cs(nm), cs(b), cs(ra), "true" if rg["table"] == "old" else "false", area_term(rg["area"]))
                   for (nm, b, ra), rg in zip(before, spec["ranges"]))
     at = ";".join("(%s, %s, %s)" % (cs(nm), cs(b), cs(ra)) for nm, b, ra in after)
-    return "NRename %s %s [%s] %s [%s]" % (cs(spec["old"]), cs(spec["new"]), bt, "true" if r[0] == "ok" else "false", at)
+    return "NRename %s %s [%s] %s [%s]" % (cs(old_name), cs(new_name), bt, "true" if r[0] == "ok" else "false", at)
 
 
 def name_class(n):
